@@ -157,6 +157,9 @@ def objective(desc: dict, x):
             for j in range(nobj):
                 vals[j] += g_family(fam if j == 0 else ("sphere" if fam != "sphere" else "linear"), z, coef[k % len(coef)] * (j + 1), shift[k % len(shift)])
             k += 1
+    off = desc.get("offset")
+    if off:
+        vals = [v + off for v in vals]        # an optimum value far from zero: converged costs agree in many digits
     if desc.get("negate"):
         vals = [-v for v in vals]
     return vals[0] if nobj == 1 else vals
